@@ -2,7 +2,7 @@
 # usage: sweep.sh <sub> <cases> <seed> [maxsize]   -> one line of result; stats in _build/work/c14sw_<sub>_<seed>.stats.json
 cd /verif
 SUB=$1; N=$2; SEED=$3; MS=${4:-100}
-EXCL=$(grep -v '^#' agents/C14/known_keys.txt | tr '\n' ',' | sed 's/,$//')
+EXCL=$(grep -v "^#" ${KEYS:-agents/C14/known_keys.txt} | tr '\n' ',' | sed 's/,$//')
 OUT=_build/work/c14sw_${SUB}_${SEED}
 rm -f $OUT.fail
 S=$(date +%s)
